@@ -33,11 +33,19 @@ ASSUMPTIONS = [
     "not verified against Go source",
     "C16_marker_partial assumes the C03 interface: on two valid versions the Go constraint match equals packaging's "
     "Specifier.contains (hypothesis sat_agree); checked per case by the direct oracle",
-    "third clause: C16_guard proves that the resolver model's only marker-dependent predicate (keep of getDependencies, "
-    "Resolve/Pypi.v) instantiated with the marker model agrees with packaging on the domain; which extras reach it and that "
-    "kept requirements become edges is C08; on the Go code the clause is decided by the marker_edge / marker_multi "
-    "correspondence and oracle (real resolver over a LocalClient; shapes: one requirer, marker on the root's own "
-    "requirement, two requirers with different extras, guarded requirement enabling an extra, extras asked only by a rejected candidate)",
+    "third clause (followed exactly when): theorems on the C08 resolver model instantiated with the marker model, for every "
+    "client: C16_get_dependencies_exact (getDependencies keeps exactly the unguarded requirements and those whose marker "
+    "packaging evaluates to true for the extras E it is called with), C16_followed_only_if_partial (every edge of the "
+    "resolved graph carries a requirement whose marker packaging evaluates to true for a set E of extras requested by known "
+    "requirements on the source's package) and C16_followed_if_partial (for every node some E exists such that the kept "
+    "requirements are exactly a list for which the graph has all edges); PARTIAL: that E is precisely the extras finally "
+    "requested is false of the code (C08 findings F-C08-2/-3), and markers must be printed trees in the domain of "
+    "C16_marker_partial; on the Go code the clause is decided by the marker_edge / marker_multi correspondence and oracle "
+    "(real resolver over a LocalClient; shapes: one requirer, marker on the root's own requirement, two requirers with "
+    "different extras, guarded requirement enabling an extra, extras asked only by a rejected candidate, requirement "
+    "back on the root)",
+    "the domain of C16_marker_partial asks that at most one of the names a marker compares extra with is requested "
+    "(F-C16-7 narrowed to: two different names of the marker both requested)",
     "the marker correspondence compares observables only (accept/reject, value for the requested extras, values over a grid "
     "of extras sets); Go's parse tree and its String() (a debug text that embeds semver's internal set syntax) are not compared",
 ]
@@ -51,7 +59,9 @@ MANIFEST = dict(
           "normalisation equals packaging's and is idempotent on valid names; the marker parser reads back every printed "
           "marker tree (C16_marker_roundtrip), independent of Go map order, within a proved fuel bound, and Eval cannot reach "
           "its panic; Go evaluation equals packaging's on an explicit boolean domain (C16_marker_partial, under the C03 "
-          "interface hypothesis). The unrestricted evaluation statement is REFUTED by seven witness classes, all open known "
+          "interface hypothesis; C16_domain_class: the oracle's classifier is that predicate); at resolver level "
+          "(C08's model with the marker model) C16_get_dependencies_exact, C16_followed_only_if_partial, "
+          "C16_followed_if_partial, C16_guard. The unrestricted evaluation statement is REFUTED by seven witness classes, all open known "
           "findings replayed on the Go code each run. Tie: Go vs extracted model on requirement strings, names, marker "
           "trees/values (8 repetitions for map-order nondeterminism), the guarded edge through the real resolver over a "
           "LocalClient, and universes with several guarded dependencies and two roots resolved on ONE resolver "
